@@ -3,7 +3,7 @@ From Coq Require Import ZArith QArith List.
 From KV Require Import Base.Outcome Base.Num C19.Model C19.ProofsEasing C06.Model C06.Dur C06.Proofs C06.Proofs2.
 From KV Require Import C06.ProofsFollow C06.ModelOwners C06.ProofsOwners C03.Model C06.OwnersSound C06.ProofsOwnersSound C06.ProofsOwnersC12.
 From KV Require Base.IEEE C17.Model C12.Model C06.ProofsOwnersMod C06.RunOwners.
-From KV Require Import C05.ProofsSpeed C06.ProofsTypes.
+From KV Require Import C05.ProofsSpeed C06.ProofsTypes C06.ProofsResume.
 Import ListNotations.
 Local Open Scope Q_scope.
 
@@ -574,3 +574,53 @@ Theorem fade_in_zero_duration_takes_effect :
     exists m', psm_update powf V interp identity (psm_new V silence identity (Some tw)) dt i = Ok (m', false) /\
       ps m' = Playing /\ p_raw (fade m') = identity /\ p_state (fade m') = Idle (Fixed identity).
 Proof. exact fade_in_zero_duration_started_identity. Qed.
+
+(** The tween of [resume(tween)] -- the owner resumes NOW -- reaches the fade volume as it is: the owner is Resuming at
+    once and the fade parameter is told to move to 0 dB with that very tween (its own start time untouched, elapsed
+    time 0) from its current, possibly mid-tween, value.  The tween's start time is the parameter's to count, once. *)
+Theorem resume_tween_reaches_fade_parameter :
+  forall (V : Type) (identity : V) (m : psm Q V) (tw : tween Q),
+    is_stopped (ps m) = false ->
+    let m' := psm_resume V identity m Immediate tw in
+    ps m' = Resuming /\ told_to_move V (fade m) (fade m') identity tw.
+Proof. exact resume_now_reaches_parameter. Qed.
+
+(** The same for the fade-out tweens of pause and stop. *)
+Theorem pause_tween_reaches_fade_parameter :
+  forall (V : Type) (silence : V) (m : psm Q V) (tw : tween Q),
+    is_stopped (ps m) = false ->
+    let m' := psm_pause V silence m tw in
+    ps m' = Pausing /\ told_to_move V (fade m) (fade m') silence tw.
+Proof. exact pause_reaches_parameter. Qed.
+
+Theorem stop_tween_reaches_fade_parameter :
+  forall (V : Type) (silence : V) (m : psm Q V) (tw : tween Q),
+    is_stopped (ps m) = false ->
+    let m' := psm_stop V silence m tw in
+    ps m' = Stopping /\ told_to_move V (fade m) (fade m') silence tw.
+Proof. exact stop_reaches_parameter. Qed.
+
+(** A resume with a start time of its own ([resume_at]) waits with the fade parameter untouched, and at the update at
+    which that start time has come tells it to move with the tween as it was given. *)
+Theorem resume_at_tween_reaches_fade_parameter_when_due :
+  forall (powf : Q -> Q -> Q) (V : Type) (interp : V -> V -> Q -> V) (identity : V)
+         (m : psm Q V) (st : stime Q) (tw : tween Q) (dt : Q) (i : info Q) (f : param Q V) (fin : bool),
+    ps m = WaitingToResume st tw ->
+    param_update powf V interp (fade m) dt i = Ok (f, fin) ->
+    stime_update st dt i = Ok (Immediate, false) ->
+    exists m', psm_update powf V interp identity m dt i = Ok (m', true) /\
+      ps m' = Resuming /\ told_to_move V f (fade m') identity tw.
+Proof. exact waiting_due_reaches_parameter. Qed.
+
+(** Resumed NOW with a zero-duration tween whose own start is pending: after an update the owner is still Resuming, the
+    fade volume has kept its value exactly, and the tween's delay has been counted down by this update -- once. *)
+Theorem resume_tween_pending_start_counted_once :
+  forall (powf : Q -> Q -> Q) (V : Type) (interp : V -> V -> Q -> V) (identity : V)
+         (m : psm Q V) (tw : tween Q) (dt : Q) (i : info Q) (d : Z),
+    is_stopped (ps m) = false -> tw_dur tw = 0%Z -> pending (tw_start tw) i -> secs_to_ns_Q dt = Ok d ->
+    exists m', psm_update powf V interp identity (psm_resume V identity m Immediate tw) dt i = Ok (m', false) /\
+      ps m' = Resuming /\ p_raw (fade m') = p_raw (fade m) /\
+      p_state (fade m') = Tweening (p_raw (fade m)) (Fixed identity) 0
+                            {| tw_start := match tw_start tw with Delayed rem => Delayed (sat_sub rem d) | s => s end;
+                               tw_dur := 0; tw_easing := tw_easing tw |}.
+Proof. exact resume_now_pending_holds. Qed.
